@@ -244,7 +244,10 @@ def m_saturating_sub(I, st, fr, args, path, gargs, t):
     rlo, rhi = INT_RANGES[ty]
     if st.in_range(p, rlo, rhi) is True:
         return I.mk(st, ty, p)
-    return st.fresh(ty, tag='sat')
+    r = range_split(st, p, rlo, rhi)
+    if r == 'in':
+        return I.mk(st, ty, p)
+    return K(rlo if r == 'below' else rhi, ty)
 
 
 @model(r'core::num::<impl ' + INT + r'>::pow')
